@@ -138,6 +138,11 @@ const fileWriterBase = 41
 // rotating application does with a reopened file), so that every write(2) is seen as one event
 const fwWriterBase = 45
 
+// writer ids from nlwWriterBase on are destinations the application wrapped itself with the public
+// slog.NewLogWriter before handing them over: odd ids wrap a writer that asks to be told the severity
+// (it still has to be told), even ids a plain one
+const nlwWriterBase = 49
+
 var fwGen int
 
 func newFwWriter(id int) io.Writer {
@@ -193,6 +198,9 @@ func newFileWriter(id int) *os.File {
 
 // writer id -> kind: 1 plain, 2 LogWriter, 3 LevelSettable LogWriter, 4 plain+LevelSettable, then repeating
 func writerKind(id int) string {
+	if id >= nlwWriterBase {
+		return "nlw"
+	}
 	if id >= fwWriterBase {
 		return "fw"
 	}
@@ -210,7 +218,10 @@ func writerKind(id int) string {
 	return "pls"
 }
 
-func wantsLevel(id int) bool { k := writerKind(id); return id > 0 && (k == "ls" || k == "pls") }
+func wantsLevel(id int) bool {
+	k := writerKind(id)
+	return id > 0 && (k == "ls" || k == "pls" || (k == "nlw" && id%2 == 1))
+}
 
 func getWriter(id int) io.Writer {
 	if id == 0 {
@@ -224,6 +235,12 @@ func getWriter(id int) io.Writer {
 		w = &closerW{id}
 	} else {
 		switch writerKind(id) {
+		case "nlw":
+			if id%2 == 1 {
+				w = slog.NewLogWriter(&plainLevelW{id})
+			} else {
+				w = slog.NewLogWriter(&plainW{id})
+			}
 		case "fw":
 			w = newFwWriter(id)
 		case "file":
